@@ -64,6 +64,11 @@ struct world {
 static volatile int64_t id_counter = 1;
 static int64_t fresh_id(void) { return __sync_fetch_and_add(&id_counter, 1); }
 
+enum { HIDDEN_MAX = 24 };
+#define HIDE_MASK ((uintptr_t)0x5A5A5A5A5A5A5A5AULL)
+static __thread struct { uintptr_t masked; int64_t id; } *hidden;      /* malloc'd: the collector does not look there */
+static __thread int hidden_n;
+
 static var new_probe(vh_rng* r, int how, int64_t* idp) {
   int64_t id = fresh_id();
   *idp = id;
@@ -126,6 +131,7 @@ static void collect_now(void) {
 
 static void run_ops(vh_rng* r, struct world* w, int nops, const char* who) {
   struct GC* gc = current(GC);
+  if (hidden == NULL) { hidden = calloc(HIDDEN_MAX, sizeof *hidden); }
   for (int op = 0; op < nops; op++) {
     int roll = (int)vh_below(r, 100);
     int slot = (int)vh_below(r, HOLD);
@@ -148,6 +154,29 @@ static void run_ops(vh_rng* r, struct world* w, int nops, const char* who) {
       if (h->p) { delete_held(h, w->stopped ? "-inside-stop-window" : ""); }
       h->p = p; h->how = w->stopped ? HK_UNREGISTERED : HK_ROOT; h->id = id; h->is_box = 0;
       vh_op("%s new_root(id %" PRId64 ")", who, id);
+    } else if (roll < 33 && !w->stopped) {
+      /* a root that nothing on the stack refers to: its address is parked, disguised, in malloc'd memory (what roots are
+         for: pointers kept in static data or plain C structures).  Only its root flag keeps it alive through the
+         collections and registry rehashes that follow; del_root later finalises it -- exactly once. */
+      if (hidden_n < HIDDEN_MAX) {
+        int64_t id; var p = new_probe(r, HK_ROOT, &id);
+        hidden[hidden_n].masked = (uintptr_t)p ^ HIDE_MASK; hidden[hidden_n].id = id; hidden_n++;
+        p = NULL;
+        vh_op("%s new_root(id %" PRId64 ") parked off the stack", who, id);
+        vh_count("roots_parked_off_the_stack");
+      } else {
+        int k = (int)vh_below(r, (uint64_t)hidden_n);
+        int64_t id = hidden[k].id;
+        vh_eval();
+        if (mo_state[id] != MO_CONSTRUCTED) {
+          vh_violation("C06:root:finalised-before-del_root", "root object id %" PRId64 " is in state %d although del_root was never called on it", id, mo_state[id]);
+        } else {
+          del_root((var)(hidden[k].masked ^ HIDE_MASK));
+          expect_released(id, "del_root-of-a-root-kept-off-the-stack");
+        }
+        hidden[k] = hidden[--hidden_n];
+        vh_op("%s del_root(id %" PRId64 ") of a parked root", who, id);
+      }
     } else if (roll < 38) {
       int64_t id; var p = new_probe(r, HK_RAW, &id);
       if (h->p) { delete_held(h, w->stopped ? "-inside-stop-window" : ""); }
@@ -226,6 +255,14 @@ static void run_ops(vh_rng* r, struct world* w, int nops, const char* who) {
 
 /* end of a world: delete by hand what the API says must be deleted by hand; managed objects are left to teardown */
 static void finish_world(struct world* w) {
+  while (hidden_n > 0) {
+    hidden_n--;
+    int64_t id = hidden[hidden_n].id;
+    vh_eval();
+    if (mo_state[id] != MO_CONSTRUCTED) { vh_violation("C06:root:finalised-before-del_root", "root object id %" PRId64 " is in state %d although del_root was never called on it", id, mo_state[id]); continue; }
+    del_root((var)(hidden[hidden_n].masked ^ HIDE_MASK));
+    expect_released(id, "del_root-of-a-root-kept-off-the-stack");
+  }
   for (int i = 0; i < HOLD; i++) {
     struct held* h = &w->h[i];
     if (h->p && (h->how == HK_ROOT || h->how == HK_RAW || h->how == HK_UNREGISTERED)) { delete_held(h, ""); }
